@@ -1,7 +1,7 @@
 (* C16 — session table hygiene: dead ids are inert, sessions isolated, nothing leaks.  Model: theories/Server.v. *)
 From Coq Require Import NArith List Bool.
 Import ListNotations.
-From EIO Require Import Server ServerInv ServerProofs ServerCor.
+From EIO Require Import Server ServerInv ServerProofs ServerCor ServerUpg ServerSvc.
 Open Scope N_scope.
 
 (* send() to an id that is not in the table is a silent no-op: the whole state is unchanged, nothing is emitted *)
@@ -26,7 +26,22 @@ Theorem c16_ids_never_reused : forall cfg ops,
   let '(s, acc) := run_sched cfg ops (init cfg) [] in forall i ss, alookup i (store s) = Some ss -> i < nsid s.
 Proof. exact ids_never_reused. Qed.
 
+(* every reachable state, every schedule: an id in the session table has a record and was issued by this server *)
+Theorem c16_table_ids_have_records : forall cfg ops,
+  let s := fst (run_sched cfg ops (init cfg) []) in
+  forall i, nmem i (table s) = true -> alookup i (store s) <> None /\ i < nsid s.
+Proof. exact table_ids_have_records. Qed.
+
+(* the visit of the monitor to a session that has ended removes its entry from the table and touches no other entry; together with
+   c07_monitor_never_dies (the monitor keeps visiting) and c07_clock_honours_timers (no visit is skipped) every ended session
+   leaves the table at the monitor's next visit to it *)
+Theorem c16_monitor_visit_reaps_closed : forall cfg fuel me i r iv s, s_closed (cur i s) = true ->
+  table (stof (svc_continue cfg fuel me (i :: r) iv s)) = nrem i (table s).
+Proof. exact visit_closed_reaps. Qed.
+
 Print Assumptions c16_dead_send_noop.
 Print Assumptions c16_closed_send_noop.
 Print Assumptions c16_dead_api_keyerror.
 Print Assumptions c16_ids_never_reused.
+Print Assumptions c16_table_ids_have_records.
+Print Assumptions c16_monitor_visit_reaps_closed.
